@@ -508,7 +508,7 @@ class Machine:
         if name == 'int' and n == 1:
             if isinstance(a[0], Num):
                 if abs(a[0].v) >= Fraction(10) ** 28:
-                    raise Undefined('integral builtins on integers beyond 28 digits')
+                    return self.big_integral(a[0], X.trunc)
                 return Num.of_int(X.trunc(a[0].v))
             if isinstance(a[0], bool):
                 return Num.of_int(int(a[0]))
@@ -552,7 +552,7 @@ class Machine:
             return Num(X.round_sig(abs(x.v)))
         if name in ('floor', 'ceil') and n == 1 and isinstance(a[0], Num):
             if abs(a[0].v) >= Fraction(10) ** 28:
-                raise Undefined('integral builtins on integers beyond 28 digits')
+                return self.big_integral(a[0], X.floor if name == 'floor' else X.ceil)
             return Num.of_int(X.floor(a[0].v) if name == 'floor' else X.ceil(a[0].v))
         if name == 'round' and n in (1, 2) and isinstance(a[0], Num):
             nd = 0
@@ -735,6 +735,15 @@ class Machine:
             raise Undefined('del on a scalar')
         self.unmodelled.add(name)
         raise Undefined(f'builtin {name}/{n}')
+
+    def big_integral(self, x, f):
+        """int / floor / ceil of a number of 29+ integer digits: an integer held with a positive exponent stays as it is,
+        anything with digits after the point is converted exactly."""
+        if not x.known():
+            raise Undefined('representation unknown')
+        if x.exp > 0:
+            return x
+        return Num.of_int(f(x.v))
 
     def getitem(self, c, k):
         if isinstance(k, tuple) and k and k[0] == 'slice':
